@@ -470,6 +470,8 @@ class Run:
                     box, key = v.box, v.key
                 elif isinstance(v, Obj) and v.kind == 'box':
                     box, key = v.f, '0'
+                elif isinstance(v, Obj) and v.kind == 'seq':
+                    pass            # a slice / iterator value returned by reference: the reference is the sequence
                 else:
                     return None
             elif k == 'field':
@@ -510,6 +512,8 @@ class Run:
                     return K(Fraction(x))
                 if isinstance(x, int):
                     return K(x, True)
+            if v['c'] == 'fn':
+                return Obj('fnitem', {}, v.get('def'))
             if v['c'] == 'zst':
                 return Obj('tuple', {})
             if v['c'] in ('promoted', 'constitem'):
@@ -843,6 +847,8 @@ class Run:
                 return Obj(r['def'], dict(zip(r['fields'], ops)), r['variant'] if r.get('is_enum') else None)
             if r['kind'] == 'tuple':
                 return Obj('tuple', {str(i): o for i, o in enumerate(ops)})
+            if r['kind'] == 'closure':
+                return Obj('closure', {str(i): o for i, o in enumerate(ops)}, r.get('id') or r.get('def'))
             return TOP
         return TOP
 
@@ -921,6 +927,9 @@ class Run:
             if mode == 'checked':
                 return Obj('std::option::Option', {'0': res_v}, 'Some') if fits else TOP
             return res_v
+        sq = self.seq_call(d, name, tr, args, a, depth)
+        if sq is not None:
+            return sq
         res = c.get('res') or {}
         id_ = res.get('id')
         b = self.body(id_) if id_ else None
@@ -940,6 +949,50 @@ class Run:
                 x.box[x.key] = TOP
         return TOP
 
+    def apply_fn(self, fn, fargs, depth):
+        """call a closure value / function item on abstract arguments"""
+        if isinstance(fn, Obj) and fn.kind == 'closure' and fn.variant:
+            b = self.body(fn.variant) or self.body('G:' + fn.variant)
+            if b is None:
+                return TOP
+            box = {'c': fn}
+            try:
+                return self.call_fn(b, [Ref(box, 'c')] + list(fargs), depth + 1)
+            except LoopAbstain:
+                return TOP
+        if isinstance(fn, Obj) and fn.kind == 'fnitem' and fn.variant:
+            d = fn.variant
+            c = {'def': d, 'name': d.rsplit('::', 1)[-1], 'trait': None, 'local': False, 'res': {'id': d, 'def': d}}
+            return self.call(c, list(fargs), depth + 1)
+        return TOP
+
+    def seq_call(self, d, name, tr, args, a, depth):
+        """iterator chains over the window: a sequence is one abstract element (every element has that abstract value)"""
+        if (d.startswith(WINDOW + '::') or d.startswith(WINDOW + '<')) and name in ('iter', 'iter_rev', 'as_slice') and a and isinstance(a[0], Obj) and a[0].kind == WINDOW:
+            return Obj('seq', {'elem': a[0].f.get('elem', TOP)})
+        if not a or not isinstance(a[0], Obj) or a[0].kind != 'seq':
+            return None
+        sq = a[0]
+        el = sq.f.get('elem', TOP)
+        if name in ('iter', 'into_iter', 'rev', 'copied', 'cloned', 'skip', 'take', 'by_ref', 'as_ref', 'deref', 'borrow', 'peekable', 'fuse'):
+            return Obj('seq', {'elem': el})
+        if name == 'map' and len(a) == 2:
+            return Obj('seq', {'elem': self.apply_fn(a[1], [el], depth)})
+        if name in ('sum', 'product'):
+            dd = dim_of(el)
+            if dd is None:
+                return TOP
+            return Dim(dd.deg, dd.tinv) if name == 'sum' else TOP
+        if name == 'fold' and len(a) == 3:
+            acc = a[1]
+            for _ in range(2):
+                nxt = self.apply_fn(a[2], [acc, el], depth)
+                acc = join(acc, nxt) if not (isinstance(acc, Aff) and not acc.lin and acc.c.is_zero()) else nxt
+            return acc
+        if name in ('max_by', 'min_by', 'last', 'next', 'nth', 'max', 'min', 'reduce', 'find'):
+            return TOP
+        return TOP
+
     def window_call(self, name, args, a):
         if name == 'new' and len(a) == 2:
             return Obj(WINDOW, {'elem': a[1], 'cap': a[0]})
@@ -956,6 +1009,8 @@ class Run:
                 self.pushed.append(a[1])
                 return Aff(True, old.w, old.c, False, {'popped': ONE})
             return old
+        if name in ('iter', 'iter_rev', 'as_slice'):
+            return Obj('seq', {'elem': w.f.get('elem', TOP)})
         if name in ('newest', 'oldest', 'index'):
             return w.f.get('elem', TOP)
         if name == 'get':
